@@ -140,7 +140,7 @@ theorem mintquote_accept_only_if (cx : Cx) (qid : Nat) (amount : UInt64) (u : Bo
 theorem meltquote_accept_only_if (cx : Cx) (qid : Nat) (inv : InvReq) (m : Nat → UInt64) (u : Bool) (mpp : Option UInt64)
     (s s' : DL) (q : MeltQ) (h : runM (requestMeltQuote cx qid inv m u mpp) s = (s', .ok q)) :
     cx.cfg.maxMelt = 0 ∨ q.amount ≤ cx.cfg.maxMelt := by
-  rcases requestMeltQuote_cases cx qid inv m u mpp s s' _ h with ⟨e, he, _⟩ | ⟨hh, q', _, he, hok⟩
+  rcases requestMeltQuote_cases cx qid inv m u mpp s s' _ h with ⟨e, he, _⟩ | ⟨ii, hh, q', _, he, hok⟩
   · cases he
   · injection he with he; subst he
     have := hok.maxMelt
